@@ -51,6 +51,9 @@ def gen_case(seed, idx, exh_k=None):
         # geometries whose data_width/granularity ratio is not a power of two (legal: any divisor)
         dw, gran = rnd2.choice([(24, 8), (12, 4), (40, 8), (48, 8), (56, 8), (6, 2), (24, 4), (9, 3), (15, 3)])
     aw = rnd.choice([2, 3, 4, 5, 6, 8])
+    huge = rnd2.random() < 0.05
+    if huge:
+        aw = rnd2.choice([54, 58, 62])          # address spaces beyond 2**53 words
     ops, depth, nreg = [], 0, 0
     names = ["a", "b", "c", "r0", "r1", "x"]
     for _ in range(rnd.randint(2, 14)):
@@ -72,6 +75,10 @@ def gen_case(seed, idx, exh_k=None):
             nreg += 1
             if rnd.random() < .05 and rid > 0:
                 rid = rnd.randrange(rid)
+            if huge and rnd2.random() < 0.5:
+                # an explicit offset high up whose word address is not a round number, then implicit placement
+                step_ = dw // gran
+                off = ((1 << (aw - 1)) + rnd2.randrange(1, 1 << 12) * 2 + 1) * step_
             ops.append(("add", rid, nm, w, off))
         elif k == "cluster":
             cn = rnd.choice(names) if rnd.random() < .9 else BAD
